@@ -448,18 +448,25 @@ def run(ctx):
                       'ignore': ['SOL'], 'fail': {}, 'resolution': 'mol', 'nres_supplied': nres_total})
     # always exercised: one chain whose leading residues (the walk root included) are supplied, the rest built after
     # one or two abandoned attempts, at both resolutions
+    directed = []
     for resolution in ('mol', 'meta_mol'):
-        for nfail in (1, 2):
+        for nfail, maxiter in ((1, None), (2, None), (3, 2), (2, 1)):
+            # maxiter below the number of failed attempts: the molecule is given up once and started over
             mt = systems.gen_moltype(rng, 'MA', nres=rng.randint(4, 6), multi_atom=True, shape='path')
-            cases.append({'kind': 'fail', 'moltypes': [mt], 'molecules': [('MA', 1)], 'seed': rng.randrange(10 ** 6), 'L': 6.0, 'skip': [],
-                          'ignore': [], 'fail': {'first_attempts': nfail}, 'resolution': resolution, 'nres_supplied': rng.randint(1, mt['nres'] - 2)})
+            c = {'kind': 'fail', 'moltypes': [mt], 'molecules': [('MA', 1)], 'seed': rng.randrange(10 ** 6), 'L': 6.0, 'skip': [],
+                 'ignore': [], 'fail': {'first_attempts': nfail}, 'resolution': resolution, 'nres_supplied': rng.randint(1, mt['nres'] - 2)}
+            if maxiter:
+                c['maxiter'] = maxiter
+            directed.append(c)
+    rng.shuffle(directed)
+    cases[0:0] = directed
     for i in range(ctx.n(30, 300)):
         try:
             cases.append(plan_run(rng, kinds[i % len(kinds)]))
         except ValueError:
             continue
     if ctx.broken:
-        cases = cases[:12]
+        cases = cases[:16]
     timeouts = 0
     for case in cases:
         if timeouts >= 2:
